@@ -997,6 +997,19 @@ def translate_locals_slice(path, fn, gname, names, extra=()):
     return {"name": gname, "c_name": fn, "params": plist, "arrays": [], "loop": False, "outs": names, "ret": "slice", "text": text}
 
 
+SKIPPED_GUARDS = []
+
+
+def early_exit_only(s):
+    """a statement (block) that only logs and returns"""
+    if s.get("kind") == "ReturnStmt":
+        return True
+    if s.get("kind") == "CompoundStmt":
+        st = [c for c in s.get("inner", []) if isinstance(c, dict) and c]
+        return bool(st) and st[-1].get("kind") == "ReturnStmt" and all(is_log_only(c) or has_call(c, "wFct") or c.get("kind") == "CallExpr" for c in st[:-1])
+    return False
+
+
 def translate_cell_slice(path, fn, gname, member):
     """functions that read / update one element of an array reached through pointers (vol->bitmapTable[b]->map[i]):
        the element is the parameter `cell`; the result is the value returned, or the value stored into the element."""
@@ -1029,6 +1042,11 @@ def translate_cell_slice(path, fn, gname, member):
             inner = [c for c in s_.get("inner", []) if isinstance(c, dict) and c]
             if inner:
                 result = inner[0]
+        elif k == "IfStmt" and len(s_["inner"]) == 2 and result is None and early_exit_only(s_["inner"][1]):
+            # an early exit in front of the element access (a refusal of out-of-range arguments: logs and returns): the slice
+            # describes the access that happens when the call is not refused; the refusal itself is listed in meta.json
+            SKIPPED_GUARDS.append(fn)
+            continue
         else:
             raise Unsupported("cell slice %s: statement %s" % (fn, k))
     if result is None:
@@ -1417,7 +1435,7 @@ def main():
                     body = "(let %s = %s in %s)" % (pat, call, show)
             f.write("  | \"%s\" -> %s\n" % (r["name"], body))
         f.write("  | _ -> \"unknown\"\n")
-    meta = {"functions": [{k: v for k, v in r.items() if k != "text"} for r in fns], "status": status,
+    meta = {"functions": [{k: v for k, v in r.items() if k != "text"} for r in fns], "status": status, "early_exits_outside_slices": sorted(set(SKIPPED_GUARDS)),
             "consts": consts, "enums": ENUMS}
     with open(os.path.join(OUT, "meta.json"), "w") as f:
         json.dump(meta, f, indent=1)
